@@ -148,3 +148,21 @@ func vEqBytes(a, b []byte) bool { return string(a) == string(b) }
 // replayed inside the engine only.
 func vUF32(name string, x uint8) uint32      { panic("vUF32: engine only") }
 func vUFBool(name string, window []byte) bool { panic("vUFBool: engine only") }
+
+// ---- model file system control (engine) / real temp dir (native)
+
+func vTempDir() string {
+	d, err := os.MkdirTemp("", "verif-native-")
+	if err != nil {
+		panic(err)
+	}
+	return d
+}
+
+func vFSFault(op string, nth int)             {} // engine only: the nth call of op fails
+func vFSCalls(op string) int                  { return 0 }
+func vFSMutations() int                       { return 0 }
+func vCrashAt(k int, short int, after func()) {} // engine only
+func vCrashed() bool                          { return false }
+func vSetCanClone(on bool)                    {}
+func vFSList(dir string) []string             { return nil }
